@@ -77,6 +77,8 @@ pub struct Engine {
     pub write_tag: u32,
     /// op log index at which each op started (for crash obligations)
     pub op_log_start: Vec<usize>,
+    /// device (calls, read calls, write calls) counters at the start of each op
+    pub op_calls_start: Vec<(u64, u64, u64)>,
 }
 
 pub fn out_kind(r: &OpRes) -> String {
@@ -128,6 +130,7 @@ impl Engine {
             nontrivial: false,
             write_tag: 1,
             op_log_start: vec![],
+            op_calls_start: vec![],
         })
     }
 
@@ -258,6 +261,7 @@ impl Engine {
         let vi = target_mvol.map(|mv| self.vstate_of_mvol(mv));
         let log_before = self.ex.disk.log_len();
         self.op_log_start.push(log_before);
+        self.op_calls_start.push(self.ex.disk.with(|s| (s.calls, s.read_calls, s.write_calls)));
         let pre = monitors::PreOp::capture(self, &op, vi);
         self.ops.push(op.clone());
         if std::env::var_os("SDV_TRACE").is_some() {
